@@ -54,7 +54,7 @@ func stateDigest(db *idb.MemDB, cfg config) string {
 
 func faultable(op string) bool {
 	switch op {
-	case "new", "fresh", "cfg", "close", "dump", "writes", "set", "rm", "rollback", "wver", "isempty", "size",
+	case "new", "fresh", "cfg", "close", "dump", "writes", "rollback", "wver", "isempty", "size",
 		"height", "version", "hold", "release", "reads", "ifempty":
 		return false
 	}
@@ -83,6 +83,35 @@ func (s *session) faultCheck(args []string, img []kv, target int64, pending []st
 	if r0 != splitRes(ref) {
 		return fmt.Sprintf("faults=%d nondeterministic (%s vs %s)", len(calls), r0, splitRes(ref))
 	}
+	// a write to the working tree (Set / Remove) that reports a failure must leave the working tree as it
+	// was: otherwise later reads answer with absences or values as if nothing had happened
+	workingOp := args[0] == "set" || args[0] == "rm"
+	workDigest := func(x *session) (d string) {
+		defer func() {
+			if r := recover(); r != nil {
+				d = fmt.Sprint("panic:", r)
+			}
+		}()
+		a := &pairCollector{}
+		x.tree.ImmutableTree.IterateRange(nil, nil, true, a.fn)
+		out := fmtPairs(a.ps) + fmt.Sprintf(" size=%d", x.tree.Size())
+		for _, p := range a.ps {
+			v, err := x.tree.Get(p[0])
+			out += fmt.Sprintf(" %s=%s/%v", enc(p[0]), enc(v), err != nil)
+		}
+		if len(args) > 1 {
+			v, err := x.tree.Get(dec(args[1]))
+			out += fmt.Sprintf(" probe=%s/%v", enc(v), err != nil)
+		}
+		return out
+	}
+	preWork := ""
+	if workingOp {
+		if c0 := s.cloneAt(img, target, pending); c0 != nil {
+			preWork = workDigest(c0)
+			c0.closeTree()
+		}
+	}
 	nerr, nsame := 0, 0
 	var bad []string
 	limit := len(calls)
@@ -109,6 +138,11 @@ func (s *session) faultCheck(args []string, img []kv, target int64, pending []st
 			class = "panic"
 		case strings.HasPrefix(r, "err"):
 			class = "err"
+			if workingOp {
+				if d := workDigest(c); d != preWork {
+					class = "err-but-working-tree-changed"
+				}
+			}
 			if mut {
 				d := stateDigest(restoreDB(snapshot(c.backend)), s.cfg)
 				if d != preDigest && d != postDigest {
